@@ -287,6 +287,9 @@ func C16(p *core.Program, r *core.Report) {
 	}
 	r.Add("Q2", "writers of NextPagingURL examined", "", nNext >= 4, fmt.Sprintf("%d stores", nNext))
 
+	// ---- Q6
+	checkHrefBase(p, r, "Q6")
+
 	// ---- Q5: the same-site test of PrevNext compares with the rendering of scheme://host/ by
 	// UnescapedString: the trailing "/" of that prefix is what stops a look-alike host
 	// (example.com.evil.org, example.community). The renderer writes scheme, host, path and query
